@@ -5,6 +5,8 @@ encode and decode types.
 
 import hashlib
 import pickle
+from copy import copy
+from copy import deepcopy
 
 try:
     import diskcache
@@ -225,11 +227,30 @@ def _compile_any_defined_by_type(type_, choices):
 
 def _compile_any_defined_by_choices(specification,
                                     any_defined_by_choices):
+    """Returns given specification with given choices added to its ANY
+    DEFINED BY types. The choices are added to copies of the types,
+    and the specification itself is left as it is, as it may be
+    compiled again with other choices, or with none.
+
+    """
+
+    specification = copy(specification)
+    copied_modules = set()
+
     for location, choices in any_defined_by_choices.items():
         module_name = location[0]
         type_names = location[1:-1]
         member_name = location[-1]
+
+        if module_name not in copied_modules:
+            module = copy(specification[module_name])
+            module['types'] = copy(module['types'])
+            specification[module_name] = module
+            copied_modules.add(module_name)
+
         types = specification[module_name]['types']
+        type_name = type_names[0] if type_names else member_name
+        types[type_name] = deepcopy(types[type_name])
 
         if len(type_names) == 0:
             _compile_any_defined_by_type(types[member_name], choices)
@@ -243,6 +264,8 @@ def _compile_any_defined_by_choices(specification,
 
                 _compile_any_defined_by_type(member, choices)
                 break
+
+    return specification
 
 
 def _compile_files_cache(filenames,
@@ -346,8 +369,9 @@ def compile_dict(specification,
         raise CompileError("Unsupported codec '{}'.".format(codec))
 
     if any_defined_by_choices:
-        _compile_any_defined_by_choices(specification,
-                                        any_defined_by_choices)
+        specification = _compile_any_defined_by_choices(
+            specification,
+            any_defined_by_choices)
 
     return Specification(codec.compile_dict(specification,
                                             numeric_enums),
